@@ -124,6 +124,19 @@ def gen_case(seed):
             sc["opts"]["advertise_" + side] = {"max_idle_timeout": 0}
             sc["opts"].pop("resume", None)
             sc["opts"].pop("resume_forget", None)
+    r8 = random.Random("c09-refused/%s" % seed)
+    if r8.random() < 0.05:
+        # the server refuses the handshake outright (no application protocol in common): the very first packet the client
+        # ever processes from its peer carries CONNECTION_CLOSE, in the Initial space — a peer close like any other
+        mode = "peer-refuses-handshake"
+        for k in ("retry", "frontend_vn", "resume", "resume_forget"):
+            sc["opts"].pop(k, None)
+        sc["opts"]["alpn"] = ["vf"]
+        sc["opts"]["alpn_server"] = ["other"]
+        sc["opts"]["idle_client"] = sc["opts"]["idle_server"] = r8.choice([10.0, 60.0])
+        sc["fates"] = {"delay": sc["fates"]["delay"], "adv_seconds": 0.0, "loss": 0.0}
+        sc["script"] = [o for o in sc["script"] if o["op"] == "write"][:2]
+        sc["lateness"] = 0.0
     r5 = random.Random("c09-ampblocked/%s" % seed)
     if r5.random() < 0.07:
         # directed: the server application closes while the server cannot send a single byte: its first flight (a
